@@ -72,12 +72,21 @@ def build(full=False, quiet=True):
             sh("coq_makefile -f _CoqProject -o Makefile", cwd=COQ)
         if full:
             sh("make clean", cwd=COQ)
-        rc, out = sh("timeout 3000 make -k -j16 2>&1 | tail -200", cwd=COQ)
-        status["log"] += out
+        rc, out = sh("timeout 3000 make -k -j16 2>&1", cwd=COQ)
+        status["log"] += out[-6000:]
+        import re as _re
+        failed = _re.findall(r"\*\*\* \[Makefile[^\]]*?: ([\w/]+)\.vo\] Error", out)
         missing = [f for f in v_files() if not os.path.exists(os.path.join(COQ, f[:-2] + ".vo"))
                    or os.path.getmtime(os.path.join(COQ, f[:-2] + ".vo")) < os.path.getmtime(os.path.join(COQ, f))]
-        status["failed"] = missing
-        status["make_ok"] = not missing
+        for f in failed:
+            # a stale .vo of a file that no longer compiles must not be loaded by anything
+            for ext in (".vo", ".vok", ".vos"):
+                try:
+                    os.unlink(os.path.join(COQ, f + ext))
+                except OSError:
+                    pass
+        status["failed"] = sorted(set(missing + [f + ".v" for f in failed]))
+        status["make_ok"] = rc == 0 and not status["failed"]
         # extraction + driver (needs model/spec/extract only)
         runall = os.path.join(COQ, "extract", "RunAll.vo")
         drv = os.path.join(BUILD, "driver")
